@@ -475,6 +475,11 @@ func (e *esdtNFTMultiTransfer) addNFTToDestination(
 		return err
 	}
 
+	if currentESDTData.TokenMetaData != nil && esdtDataToTransfer.TokenMetaData == nil {
+		// a fungible entry arrives on a key under which the destination holds an NFT
+		// (tokenID||nonce aliasing): there is no metadata to compare with
+		return ErrWrongNFTOnDestination
+	}
 	if currentESDTData.TokenMetaData != nil {
 		if !bytes.Equal(currentESDTData.TokenMetaData.Hash, esdtDataToTransfer.TokenMetaData.Hash) {
 			return ErrWrongNFTOnDestination
